@@ -29,7 +29,7 @@ CHECKS.update({
                  'accept/reject must agree (only BareScriptParserError may escape). All 14^k operator chains for k<=3 (quick) / k<=4 '
                  '(thorough) with per-operand variants are enumerated; random trees to depth 8 are printed with minimal/redundant '
                  'parentheses and random whitespace; token soup and single-token mutants test rejection.'),
-        'note': 'Trusts vf/refexpr.py; vocabulary avoids lexical quirks outside the property (1-character callees, unsigned exponents, trailing blanks in bracket names); plus-signed literals are part of the reference grammar.',
+        'note': 'Trusts vf/refexpr.py; vocabulary avoids lexical quirks outside the property (1-character callees, unsigned exponents, an odd run of backslashes in front of a delimiter-like quote); plus-signed literals, bracket names with trailing blanks and hand-written string literals are part of the reference grammar; statement contexts (assignment, return, block headers, jumpif, expression statement, continued lines) go through parse_script.',
         'design_ref': '5/C02',
     },
     'C03': {
